@@ -129,6 +129,12 @@ func ignTopFeature(l []string) string {
 	if n >= 2 && l[n-2] == "/" && l[n-1] == "**" {
 		fs["ends-slash-starstar"] = true
 	}
+	// a backslash in front of a slash: git's wildmatch takes it as a literal path separator
+	for i := 0; i+1 < n; i++ {
+		if l[i] == "bs" && l[i+1] == "/" && (i == 0 || l[i-1] != "bs") {
+			fs["escaped-slash"] = true
+		}
+	}
 	// a "**" followed by two or more further non-empty segments (**/x/y, a/**/x/y)
 	for i, sym := range l {
 		if sym != "**" {
@@ -144,7 +150,7 @@ func ignTopFeature(l []string) string {
 			fs["starstar-two-segments"] = true
 		}
 	}
-	for _, f := range []string{"double-slash", "ends-slash-starstar", "backslash", "space", "bang-inside", "starstar-two-segments", "starstar", "negated", "dir-only", "leading-slash", "inner-slash", "class", "qmark", "star"} {
+	for _, f := range []string{"escaped-slash", "double-slash", "ends-slash-starstar", "backslash", "space", "bang-inside", "starstar-two-segments", "starstar", "negated", "dir-only", "leading-slash", "inner-slash", "class", "qmark", "star"} {
 		if fs[f] {
 			return f
 		}
